@@ -67,6 +67,11 @@ def rec_starts(prog):
 GENERIC_CONST = {'c0': 'c'}      # sorts after additional_data and before every parameter name
 
 
+def declared_label(lab):
+    """labels written with digits only are declared (and returned by the deciding node) as ints: 0 is falsy, 1 == True"""
+    return int(lab) if isinstance(lab, str) and lab.isdigit() else lab
+
+
 def has_const(n):
     return bool(n.get('generic') and n['params'] and not n['use_default'])
 
@@ -93,7 +98,7 @@ def build_classes(prog, rt):
             elif p['kind'] == 'switch':
                 ann[p['kw']] = SwitchCase(
                     switch=classes[p['sw']],
-                    cases=[(lab, classes[c]) for lab, c in p['cases']],
+                    cases=[(declared_label(lab), classes[c]) for lab, c in p['cases']],
                     name=None if p.get('unnamed') else p.get('name'),      # unnamed: the builder invents the id
                 )
             elif p['kind'] == 'oneof':
@@ -171,7 +176,11 @@ def make_collab_classes(rt, prog):
 
     class Events:
         async def on_pipeline_start(self, ctx):  # noqa: ANN001
-            rt.log(e='Ev', r=rtm.CUR_RUN.get(), kind='pipeline_start', n='-', err=('noerr',), res=('nores',))
+            # like a manager that keeps per-run state on self: an instance that has already served another run shows
+            mine = self.__dict__.setdefault('_verif_runs', set())
+            mine.add(rtm.CUR_RUN.get())
+            rt.log(e='Ev', r=rtm.CUR_RUN.get(), kind='pipeline_start', n='-', err=('noerr',), res=('nores',),
+                   shared=len(mine) > 1)
             await rt.collab_call('ev')
 
         async def on_pipeline_complete(self, ctx, result):  # noqa: ANN001
@@ -201,6 +210,9 @@ def make_collab_classes(rt, prog):
 
         async def on_pipeline_complete(self, ctx, result):  # noqa: ANN001
             await rt.collab_call('ev2', '-')
+            if (rt.collab.get('ev2') or {}).get('raise_on_complete'):
+                # a badly behaved manager NEXT TO the recording one (which never raises and must see every event once)
+                raise RuntimeError('collaborator ev2 fails in on_pipeline_complete')
 
         async def on_node_start(self, ctx, node_id):  # noqa: ANN001
             await rt.collab_call('ev2', rtm.short(node_id))
@@ -219,7 +231,9 @@ def make_collab_classes(rt, prog):
 
     class Store(ArtifactStore):
         async def save(self, node_id, data):  # noqa: ANN001
-            rt.log(e='Save', r=rtm.CUR_RUN.get(), n=rtm.short(node_id), v=rt.to_term(data))
+            mine = self.__dict__.setdefault('_verif_runs', set())
+            mine.add(rtm.CUR_RUN.get())
+            rt.log(e='Save', r=rtm.CUR_RUN.get(), n=rtm.short(node_id), v=rt.to_term(data), shared=len(mine) > 1)
             await rt.collab_call('save', rtm.short(node_id))
 
         async def load(self, node_id):  # noqa: ANN001
